@@ -26,7 +26,18 @@ class NativeStandIn:
         prog = program(self.solver)
         doms = [[False, True] if v["kind"] == "bool" else list(range(v["lo"], v["hi"] + 1)) for v in prog["vars"]]
         models = [a for a in itertools.product(*doms) if all(ev(c, a) for c in prog["cons"])]
-        deduce = any(line.startswith("#") for line in desc.split("\n"))
+        keyline = [line for line in desc.split("\n") if line.startswith("#")]
+        deduce = bool(keyline)
+        asked = []
+        if deduce:
+            # like the real wrapper, the stand-in decides the variables NAMED ON THE ANSWER-KEY LINE (it takes everything
+            # else from the exported program): a name it does not know is an error, as it is for the real solver
+            import re
+            for tok in keyline[-1][1:].split():
+                if not re.fullmatch(r"[bi][0-9]+", tok) or int(tok[1:]) >= len(prog["vars"]) or \
+                        (tok[0] == "b") != (prog["vars"][int(tok[1:])]["kind"] == "bool"):
+                    raise ValueError("stand-in solver: unknown answer key " + repr(tok))
+                asked.append(int(tok[1:]))
 
         def line(i, val, sep):
             v = prog["vars"][i]
@@ -35,7 +46,7 @@ class NativeStandIn:
             if not models:
                 return "unsat\n"
             out = ["sat"]
-            for k in prog["keys"]:
+            for k in asked:
                 col = {m[k] for m in models}
                 if len(col) == 1:
                     out.append(line(k, models[0][k], " "))
